@@ -27,7 +27,8 @@ THEOREMS = ['link_refinement', 'link_refinement_framing_laws', 'link_refinement_
             'C11_end_to_end', 'quiescence_reachable', 'C11_completion_always_reachable',
             'agreeing_proxy_accepted', 'issued_from_call_steps', 'result_from_step',
             'timedOut_from_expire_step', 'C11_call_selected_interface_agrees', 'C11_call_through_agreeing_proxy',
-            'C11_call_through_introspected_proxy', 'C11_returns_what_it_returned', 'prefix_model_violates']
+            'C11_call_through_introspected_proxy', 'bytes_run_simulated', 'C11_bytes_any_delivery_order_partial',
+            'C11_returns_what_it_returned', 'prefix_model_violates']
 TRUSTED_BASE = [
     'harness/net.py: in-memory byte pipes + per-peer DBusMessage._nextSerial swapping (one counter per process)',
     'message-level schedule induced from rawDBusMessageReceived/sendMessage instrumentation of each peer',
